@@ -406,6 +406,7 @@ class GParserModel(FunctionSpec):
                 return ("$set", items)
             return NotImplemented
         if name == "int" and len(args) == 1 and run._kind(args[0]) == "str":
+            run.assume(True, "int() is applied to the text of a NUMBER token, which is what RE_NUMBER matched (proved of the scanner: adj.value_from_regex[NUMBER]) - digits only (lex.number.language), so it cannot raise")
             return wrap(z3.StrToInt(z(args[0], "str")), "int")
         return NotImplemented
 
